@@ -1677,6 +1677,11 @@ impl SctpInner {
                     let tag = self.remote_verification_tag.load(Ordering::SeqCst);
                     self.send_chunk(CT_SHUTDOWN_ACK, 0, Bytes::new(), tag)
                         .await?;
+                    // The peer has shut the association down: nothing more will
+                    // be delivered or acknowledged (RFC 4960 9.2).
+                    self.print_stats("REMOTE_SHUTDOWN");
+                    *self.close_reason.lock() = Some("REMOTE_SHUTDOWN".into());
+                    self.set_state(SctpState::Closed);
                 }
                 CT_SHUTDOWN_ACK => {
                     debug!("SCTP SHUTDOWN ACK received, closing connection");
